@@ -66,5 +66,10 @@ def gen(tier, rng):
     yield nodegen.c08_script(r, "node-states", False)
     for i in range(8 if thorough else 2):
         yield nodegen.attack_script(r, "node-attack-%d" % i, 3, 8)
+    # "unless both ends explicitly enabled plain": meshes in which all / some nodes enabled it (a session is unencrypted only where both did)
+    yield nodegen.plain_script(r, "node-plain-all", [True, True, True])
+    yield nodegen.plain_script(r, "node-plain-mixed", [True, False, "only"])
+    if thorough:
+        yield nodegen.plain_script(r, "node-plain-switch", [True, "only", True, False], mode="switch", dev="tap", seconds=12)
 
 obs_class, nontrivial_key = _nodecommon.with_node(obs_class, nontrivial_key)
